@@ -69,3 +69,19 @@ func (c *Ctx) Decl(fn *ssa.Function) (*ast.FuncDecl, *types.Info) {
 func fkey(fn *ssa.Function) string { return load.FuncName(fn) }
 
 func sprintf(f string, a ...any) string { return fmt.Sprintf(f, a...) }
+
+// structFieldsOf lists the field names of a named struct type object.
+func structFieldsOf(obj types.Object) []string {
+	if obj == nil {
+		return nil
+	}
+	st, ok := obj.Type().Underlying().(*types.Struct)
+	if !ok {
+		return nil
+	}
+	var out []string
+	for i := 0; i < st.NumFields(); i++ {
+		out = append(out, st.Field(i).Name())
+	}
+	return out
+}
